@@ -156,6 +156,17 @@ def gen_cases(tier, seed):
         shells = [dict(s_, t="c", k=[[r[0]] for r in s_["k"]]) for s_ in (p1 + p2)]
         order = [shells[0], shells[1], shells[2], shells[3]] if i % 4 < 2 else [shells[0], shells[2], shells[1], shells[3]]
         cases.append({"kind": "kernel", "shells": order, "classes": sorted(set(c1 + c2)) + ["ls:%d%d%d%d" % tuple(s_["l"] for s_ in order)], "cost": 60})
+    # high angular momentum AND three primitives on every shell (the largest intermediates of the recursions)
+    big = [(3, 2, 3, 2), (3, 3, 2, 2), (3, 2, 2, 2), (2, 3, 3, 2)] if tier == "quick" else [(3, 2, 3, 2), (3, 3, 2, 2), (3, 2, 2, 2), (2, 3, 3, 2), (3, 3, 3, 2), (2, 2, 2, 2), (3, 1, 3, 2), (3, 3, 3, 3)]
+    for i, ls in enumerate(big):
+        rng = bases.rng_for("C04", seed, tier, "bigK", i)
+        centers, gcls = bases.rand_centers(rng, 4, "general", scale=0.8, offset=False)
+        shells = []
+        for l, c in zip(ls, centers):
+            s_ = bases.rand_shell(rng, l, K=3 if sum(ls) < 12 else 2, M=1, t="c", center=c, emin=0.3, emax=3.0, ecls="log")
+            s_.pop("_cls")
+            shells.append(s_)
+        cases.append({"kind": "kernel", "shells": shells, "classes": [gcls, "bigK", "ls:%d%d%d%d" % ls, "L:%d" % sum(ls)], "cost": 4000})
     # long contractions: 17..33 primitives in one shell (ANO / even-tempered style)
     for i in range(6 if tier == "quick" else 40):
         rng = bases.rng_for("C04", seed, tier, "longK", i)
